@@ -27,6 +27,15 @@ CHECKS = {
                 tech='TLA+ cycle model + TLC outcome enumeration; replay on real Coordinator; TLC evaluation of formulas on observations'),
 }
 
+CHECKS['C10'] = dict(cat='model_checking', ref='5/C10',
+    text='spec/Sidecar.tla gives the bookkeeping as state functions; TLC checks the C10 invariants and step properties (status domain = assignment, state last requested, kept statistics, new entries start unknown with the estimates, counter reset exactly on normal->in_transfer, idle-since set/kept/cleared) exhaustively on MCSidecar (2 targets x 2 jobs, every request, bounded depth); TLC-simulated behaviours (updates, scrapes, restarts, ticks) are replayed through the real service handlers / targets manager / store / proxy and TLC (SidecarEval) validates every recorded real state against the specification operators step by step.',
+    note='Requests never repeat a hash; Prometheus reload and head query simulated; virtual clock through the guarded hook.',
+    tech='TLA+ functional spec; TLC exhaustive check; TLC-generated behaviours replayed on the real sidecar; TLC trace validation')
+CHECKS['C14'] = dict(cat='model_checking', ref='5/C14',
+    text='Same specification and replay as C10, judged on the accounting fields: per scrape the recorded totals and per-metric sums equal the payload counts known by construction (samples dropped by the real metric_relabel_configs on each sample own labels), series = integer mean of the last <=3 successful scrapes, total = last successful scrape, runtimeinfo process series = sum of totals and head series = max(Prometheus head, sum of series); invariants LoadOK / WindowOK / SeriesStep checked exhaustively on the model.',
+    note='Payloads are rendered from (kept,total) with two metric names and a distinct label set per sample.',
+    tech='TLA+ functional spec; TLC exhaustive check; TLC-generated behaviours replayed on the real sidecar; TLC trace validation')
+
 ALL = ['C%02d' % i for i in range(1, 21)]
 
 
